@@ -11,10 +11,20 @@
    reverse-map name of the address and the names returned the PTR targets.    *)
 EXTENDS Naturals, Integers, Sequences, FiniteSets, TLC
 
-VARIABLES lcfg, lr, lq, lfd
-(* lr: token -> request record; lq: qid -> [t, fd, qt]; lfd: fd -> srv *)
-lvars2 == <<lcfg, lr, lq, lfd>>
-LInit2 == lcfg = [hostsfile |-> 0, usefile |-> 0] /\ lr = <<>> /\ lq = <<>> /\ lfd = <<>>
+VARIABLES lcfg, lr, lq, lfd, lc, lnow
+(* lr: token -> request record; lq: qid -> [t, fd, qt]; lfd: fd -> srv;
+   lc: <<lower-case name, type>> -> [recs, at] the last cacheable answer accepted for that question (query cache on);
+   lnow: virtual ms *)
+lvars2 == <<lcfg, lr, lq, lfd, lc, lnow>>
+LInit2 == lcfg = [hostsfile |-> 0, usefile |-> 0, qcache |-> 0] /\ lr = <<>> /\ lq = <<>> /\ lfd = <<>> /\ lc = <<>> /\ lnow = 0
+
+(* A sub-query of a lookup that is answered without any transmission is answered from the query cache: its
+   contribution is the cached answer's address records, each TTL lowered by the whole seconds spent in the cache.
+   (Which answers may be cached and for how long is property C08; here only what a hit contributes.) *)
+Needed(fam) == IF fam = 4 THEN {1} ELSE IF fam = 6 THEN {28} ELSE {1, 28}
+Aged(x, secs) == [x EXCEPT !.ttl = IF x.ttl > secs THEN x.ttl - secs ELSE 0]
+FromCache(name, qt) ==
+  IF <<name, qt>> \in DOMAIN lc THEN {Aged(x, (lnow - lc[<<name, qt>>].at) \div 1000) : x \in lc[<<name, qt>>].recs} ELSE {}
 
 (* the fixed hosts database the harness installs when hostsfile = 1 (address codes: -1000 - last byte) *)
 HostsDb(name) ==
@@ -22,13 +32,16 @@ HostsDb(name) ==
   ELSE CASE name = "h1.test" -> {[m |-> -1003, ttl |-> 0, f |-> 4], [m |-> -1004, ttl |-> 0, f |-> 4], [m |-> -1007, ttl |-> 0, f |-> 6]}
          [] name = "h2.test" -> {[m |-> -1005, ttl |-> 0, f |-> 4]}
          [] name = "alias2.test" -> {[m |-> -1005, ttl |-> 0, f |-> 4]}
+         [] name = "long6.test" -> {[m |-> -1007, ttl |-> 0, f |-> 6]}
+         [] name = "short6.test" -> {[m |-> -1006, ttl |-> 0, f |-> 6]}
          [] OTHER -> {}
 Loopback == {[m |-> -1001, ttl |-> 0, f |-> 4], [m |-> -1001, ttl |-> 0, f |-> 6]}
 FamOk(fam, r) == fam = 0 \/ r.f = fam
 
 (* what a successful forward lookup may return *)
 Expected(r) ==
-  LET dns == {x \in r.exp : FamOk(r.family, x)}
+  LET cached == UNION {FromCache(r.name, qt) : qt \in Needed(r.family) \ r.sentq}
+      dns == {x \in r.exp \cup cached : FamOk(r.family, x)}
       hosts == {x \in HostsDb(r.name) : FamOk(r.family, x)}
       usesfile == lcfg.usefile = 1
   IN IF r.lit # 0 THEN {{[m |-> r.lit, ttl |-> 0, f |-> IF r.family = 0 THEN 4 ELSE r.family]}, {[m |-> r.lit, ttl |-> 0, f |-> 6]}, {[m |-> r.lit, ttl |-> 0, f |-> 4]}}
@@ -42,4 +55,15 @@ RECURSIVE Cat(_, _)
 Cat(s, i) == IF i > Len(s) THEN "" ELSE s[i] \o Cat(s, i + 1)
 (* 2001::00aa with a < 10 (one decimal digit nibble) *)
 ReverseName6(a) == ToString(a) \o "." \o Cat(Zeros(27), 1) \o "1.0.0.2.ip6.arpa"
+(* 2001:db8:1111:2222:3333:4444:5555:000a with a < 10 *)
+ReverseName6L(a) == ToString(a) \o ".0.0.0.5.5.5.5.4.4.4.4.3.3.3.3.2.2.2.2.1.1.1.1.8.b.d.0.1.0.0.2.ip6.arpa"
+
+(* reverse side of the hosts database: the first name on the line of that address ("" = not listed) *)
+HostsRev(fam, a, long) ==
+  IF lcfg.hostsfile = 0 THEN ""
+  ELSE IF fam = 4 THEN (CASE a = 515 -> "h1.test" [] a = 516 -> "h1.test" [] a = 517 -> "h2.test" [] OTHER -> "")
+  ELSE IF long = 1 THEN (IF a = 7 THEN "long6.test" ELSE "")
+  ELSE (IF a = 6 THEN "short6.test" ELSE "")
+FileFirst == lcfg.usefile = 1 /\ lcfg.lookups \in {"fb", "f"}
+FileUsed == lcfg.usefile = 1
 =============================================================================
